@@ -331,5 +331,139 @@ theorem checkPasswordRc4_eq {P : Prims} {H : Hashes} (hp : PrimsAgree P H) (hw :
     · have : ¬ (u.take 16 = c) := fun e => hc e.symm
       simp [hc, this]
 
+/-! ## Algorithm 2.B: the loop of `revision_6_kdf` is the loop of the standard -/
+
+theorem foldl_add_toNat (bs : Bytes) (a : Nat) : bs.foldl (fun a b => a + b.toNat) a = a + bs.foldl (fun a b => a + b.toNat) 0 := by
+  induction bs generalizing a with
+  | nil => simp
+  | cons b bs ih => simp only [List.foldl_cons]; rw [ih, ih (0 + b.toNat)]; omega
+
+theorem sumBytes_cons (b : UInt8) (bs : Bytes) : sumBytes (b :: bs) = b.toNat + sumBytes bs := by
+  unfold sumBytes; simp only [List.foldl_cons]; rw [foldl_add_toNat]; omega
+
+/-- 256 ≡ 1 (mod 3): the big-endian number and the byte sum agree modulo 3 -/
+theorem beNat_mod3 (bs : Bytes) : beNat bs % 3 = sumBytes bs % 3 := by
+  induction bs with
+  | nil => rfl
+  | cons b bs ih =>
+    have h1 : 256 ^ bs.length % 3 = 1 := by rw [Nat.pow_mod]; simp
+    rw [beNat, sumBytes_cons, Nat.add_mod, Nat.mul_mod, h1, ih]
+    simp [Nat.add_mod]
+
+theorem flatten_replicate_length (n : Nat) (unit : Bytes) : (List.replicate n unit).flatten.length = n * unit.length := by
+  induction n with
+  | zero => simp
+  | succ n ih => rw [List.replicate_succ, List.flatten_cons, List.length_append, ih]; rw [Nat.succ_mul]; omega
+
+theorem repeat64_length (unit : Bytes) : (repeat64 unit).length = 64 * unit.length :=
+  flatten_replicate_length 64 unit
+
+def optOut {α : Type} : Option α → Out α
+  | some a => .ok a
+  | none => .oof
+
+/-- what stays true of `K` from round to round -/
+def KLen (k : Bytes) : Prop := k.length = 32 ∨ k.length = 48 ∨ k.length = 64
+
+theorem kdfRound_eq {P : Prims} {H : Hashes} (hp : PrimsAgree P H) (hw : H.WF) (pw u k : Bytes)
+    (hpw : pw.length ≤ 127) (hu : u.length ≤ 48) (hk : KLen k) :
+    kdfRound P pw u k = .ok (round2B H pw u k) ∧ KLen (round2B H pw u k).1 := by
+  have hul : (pw ++ k ++ u).length * 64 ≤ 15360 := by
+    simp only [List.length_append]; unfold KLen at hk; omega
+  have hpos : 0 < (pw ++ k ++ u).length := by
+    simp only [List.length_append]; unfold KLen at hk; omega
+  have hiv : ((k.drop 16).take 16).length = 16 := by
+    rw [List.length_take, List.length_drop]; unfold KLen at hk; omega
+  have hrl := repeat64_length (pw ++ k ++ u)
+  have hel : (cbcEnc (H.aesE (k.take 16)) ((repeat64 (pw ++ k ++ u)).length / 16) ((k.drop 16).take 16) (repeat64 (pw ++ k ++ u))).length
+      = 16 * ((repeat64 (pw ++ k ++ u)).length / 16) :=
+    cbcEnc_length (hw.aesE_len _) _ _ _ hiv (by rw [hrl]; omega)
+  constructor
+  · unfold kdfRound round2B
+    simp only []
+    rw [if_neg (by omega)]
+    unfold cbcEncryptNoPad
+    rw [if_neg (by rw [hrl]; omega), cbcEncryptBlocks_eq hp, Out.bind_ok]
+    rw [show (List.replicate 64 (pw ++ k ++ u)).flatten = repeat64 (pw ++ k ++ u) from rfl]
+    have hel' : (cbcEnc (H.aesE (k.take 16)) ((repeat64 (pw ++ k ++ u)).length / 16) ((k.drop 16).take 16) (repeat64 (pw ++ k ++ u))).length
+        = 64 * (pw ++ k ++ u).length := by rw [hel, hrl]; omega
+    generalize cbcEnc (H.aesE (k.take 16)) ((repeat64 (pw ++ k ++ u)).length / 16) ((k.drop 16).take 16) (repeat64 (pw ++ k ++ u)) = e at hel'
+    have hne : e ≠ [] := by
+      intro h; rw [h, List.length_nil] at hel'; omega
+    obtain ⟨last, hlast⟩ : ∃ l, e.getLast? = some l := by
+      cases hh : e.getLast? with
+      | none => exact absurd (List.getLast?_eq_none_iff.mp hh) hne
+      | some l => exact ⟨l, rfl⟩
+    rw [hlast]
+    have hm := beNat_mod3 (e.take 16)
+    have hlt := Nat.mod_lt (beNat (e.take 16)) (show 3 > 0 by decide)
+    rw [← hm]
+    generalize beNat (e.take 16) % 3 = m at hlt
+    by_cases h0 : m = 0
+    · rw [if_pos (by omega), if_pos h0, hp.sha256]; rfl
+    · by_cases h1 : m = 1
+      · rw [if_neg (by omega), if_pos (by omega), if_neg h0, if_pos h1, hp.sha384]; rfl
+      · rw [if_neg (by omega), if_neg (by omega), if_neg h0, if_neg h1, hp.sha512]; rfl
+  · unfold round2B KLen
+    simp only []
+    split
+    · exact Or.inl (hw.sha256_len _)
+    · split
+      · exact Or.inr (Or.inl (hw.sha384_len _))
+      · exact Or.inr (Or.inr (hw.sha512_len _))
+
+theorem kdfLoop_eq {P : Prims} {H : Hashes} (hp : PrimsAgree P H) (hw : H.WF) (pw u : Bytes)
+    (hpw : pw.length ≤ 127) (hu : u.length ≤ 48) (f : Nat) :
+    ∀ (i : Nat) (k : Bytes) (last : UInt8), KLen k → (i < 64 ∨ i < last.toNat + 32) →
+      kdfLoop P pw u (f + 1) i k last = optOut (loop2B H pw u f i k) := by
+  induction f with
+  | zero =>
+    intro i k last hk hc
+    have ⟨hr, _⟩ := kdfRound_eq hp hw pw u k hpw hu hk
+    simp only [kdfLoop, if_pos hc, hr, Out.bind_ok, loop2B, optOut]
+  | succ f ih =>
+    intro i k last hk hc
+    have ⟨hr, hk'⟩ := kdfRound_eq hp hw pw u k hpw hu hk
+    rw [kdfLoop, if_pos hc, hr, Out.bind_ok]
+    simp only [loop2B]
+    generalize round2B H pw u k = r at hk' ⊢
+    obtain ⟨k', l⟩ := r
+    simp only []
+    by_cases hc' : i + 1 < 64 ∨ i + 1 < l.toNat + 32
+    · rw [ih (i + 1) k' l hk' hc', if_neg (by omega)]
+    · rw [if_pos (by omega), kdfLoop, if_neg hc']; rfl
+
+theorem loop2B_isSome (H : Hashes) (pw u : Bytes) (f : Nat) :
+    ∀ (i : Nat) (k : Bytes), 1 ≤ f → 288 ≤ i + f → (loop2B H pw u f i k).isSome = true := by
+  induction f with
+  | zero => intro i k h; omega
+  | succ f ih =>
+    intro i k _ hif
+    simp only [loop2B]
+    generalize round2B H pw u k = r
+    obtain ⟨k', l⟩ := r
+    have hl := UInt8.toNat_lt l
+    simp only []
+    by_cases hx : i + 1 ≥ 64 ∧ l.toNat + 32 ≤ i + 1
+    · rw [if_pos hx]; rfl
+    · rw [if_neg hx]; exact ih (i + 1) k' (by omega) (by omega)
+
+/-- `revision_6_kdf` computes Algorithm 2.B, for every password of at most 127 bytes and `u` of at most 48 -/
+theorem revision6Kdf_eq {P : Prims} {H : Hashes} (hp : PrimsAgree P H) (hw : H.WF) (pw salt u : Bytes)
+    (hpw : pw.length ≤ 127) (hu : u.length ≤ 48) : revision6Kdf P pw salt u = .ok (hash2B H pw salt u) := by
+  unfold revision6Kdf hash2B
+  rw [hp.sha256, Out.bind_ok, kdfLoop_eq hp hw pw u hpw hu 288 0 _ 0 (Or.inl (hw.sha256_len _)) (Or.inl (by decide))]
+  have := loop2B_isSome H pw u 288 0 (H.sha256 (pw ++ salt ++ u)) (by decide) (by decide)
+  cases hh : loop2B H pw u 288 0 (H.sha256 (pw ++ salt ++ u)) with
+  | none => rw [hh] at this; cases this
+  | some k => rfl
+
+theorem hash56_eq {P : Prims} {H : Hashes} (hp : PrimsAgree P H) (hw : H.WF) (level : Nat) (pw salt u : Bytes)
+    (hpw : pw.length ≤ 127) (hu : u.length ≤ 48) : Crypt.hash56 P level pw salt u = .ok (StdSec.hash56 H level pw salt u) := by
+  unfold Crypt.hash56 StdSec.hash56
+  by_cases h6 : level = 6
+  · rw [if_pos h6, if_pos h6, revision6Kdf_eq hp hw pw salt u hpw hu]
+  · rw [if_neg h6, if_neg h6, hp.sha256]
+
 end Crypt
 
